@@ -47,6 +47,8 @@ def convert(input_image_stream, output_image_stream):
         else:
             repeat = ord(iotostr(f.read(1)))
             c = ord(iotostr(f.read(1)))
+        if repeat > ii:
+            raise Exception("run exceeds the picture")
         for jj in range(repeat):
             ii = ii - 1
             dump(c >> 4)
